@@ -288,6 +288,13 @@ def sysMonitor (res : String) : Option String :=
     | .ok s =>
       if s.app.reverse != app then some s!"application log {app} differs from the model's {s.app.reverse}"
       else if s.res.reverse.map (·.2) != results.map (· == "ok") then some "send results differ from the model's"
+      -- the property itself, on the implementation's own log (independent of the model): in sending order,
+      -- at most once - on a secure session always; on an unsecured one unless a copy reached the receiver
+      -- more than 16 counters behind its window (the restart rule of the unsecured window, by specification;
+      -- the ghost flag `late` of the model records exactly that: `C09.twoNode_late_step`)
+      else if !strictlyIncreasing app && (enc || !s.late) then
+        some s!"the receiving application's log {app} is not in sending order / at most once"
+      else if enc && s.late then some "the model flagged a restart on a secure session"
       else none
 
 def step (st : St) (line : String) : St × String :=
